@@ -626,6 +626,9 @@ func main() {
 	case "C19":
 		runC19(r)
 		return
+	case "C10":
+		runC10Quota(r)
+		return
 	}
 	r.Rep.Rule = "real client and server Mux over simnet under virtual time; scenario matrix over transport x MTU x per-side traffic patterns (padding maxima, nonce patterns, low-entropy mode x rotation, TCP fragmentation) x write sizes around the fragment/piggyback boundaries; everything that crossed the network is decoded with refcodec and judged against the property text. distinct_nontrivial = distinct (side, pattern, segment type, size class) tuples observed on the wire"
 	scs := matrix(r)
